@@ -3106,6 +3106,32 @@ pub mod verif_hooks {
     pub fn base_128(value: u64) -> (usize, [u8; MAX_SIZE_ENCODING]) {
         encode_base_128(value)
     }
+
+    /// `BuildAndStoreHuffmanTree` (private) on caller-supplied buffers, `storage_ix` starting
+    /// at 0: returns the number of bits written.  `tree` must hold `2 * 704 + 1` nodes as in
+    /// the callers of the private function.
+    pub fn build_and_store_huffman_tree(
+        histogram: &[u32],
+        histogram_length: usize,
+        alphabet_size: usize,
+        tree: &mut [HuffmanTree],
+        depth: &mut [u8],
+        bits: &mut [u16],
+        storage: &mut [u8],
+    ) -> usize {
+        let mut storage_ix = 0usize;
+        BuildAndStoreHuffmanTree(
+            histogram,
+            histogram_length,
+            alphabet_size,
+            tree,
+            depth,
+            bits,
+            &mut storage_ix,
+            storage,
+        );
+        storage_ix
+    }
 }
 
 #[cfg(test)]
